@@ -821,7 +821,9 @@ func (s *TxStore) Rollback(tx mwdb.DBTransaction, height uint64) error {
 							})
 					} else {
 						if curHeight > 0 && readAddressHeight(addrVal) == curHeight {
-							err = deleteRawAddressRecord(nsAddresses, addrKey)
+							// first use rolled back: the address stays issued, but unused
+							addrRec.blockHeight = 0
+							err = putRawAddressRecord(nsAddresses, addrKey, valueAddressRecord(addrRec))
 							if err != nil {
 								return err
 							}
@@ -1031,7 +1033,9 @@ func (s *TxStore) Rollback(tx mwdb.DBTransaction, height uint64) error {
 						})
 				} else {
 					if curHeight > 0 && readAddressHeight(addrVal) == curHeight {
-						err = deleteRawAddressRecord(nsAddresses, addrKey)
+						// first use rolled back: the address stays issued, but unused
+						addrRec.blockHeight = 0
+						err = putRawAddressRecord(nsAddresses, addrKey, valueAddressRecord(addrRec))
 						if err != nil {
 							return err
 						}
